@@ -648,6 +648,7 @@ class Engine:
         # phis, simultaneously
         newv = {}
         carried = []
+        renames = []          # pointer values that a merge phi re-expressed in its own offset atom (the plugin may hold the old form)
         for i in blk["insts"]:
             if i["op"] != "phi":
                 break
@@ -692,7 +693,13 @@ class Engine:
             if not inc or vid in s.widened:
                 newv[vid] = s.opaque(fr, i["id"], i["ty"])
             else:
-                x = s.stabilise(fr, i, s.val(fr, inc[0]["v"], env), facts)
+                raw = s.val(fr, inc[0]["v"], env)
+                if blk["insts"][-1]["op"] == "ret" and fr.depth == 0 and i["ty"].endswith("*"):
+                    x = raw       # the pointer returned by the entry point: nothing merges behind it, keep the path's own value
+                else:
+                    x = s.stabilise(fr, i, raw, facts)
+                    if x is not raw and x != raw and raw[0] == "p" and i["id"] not in lphis:
+                        renames.append((raw, x))      # (not for loop-header phis: their atom is reused by the next iteration)
                 if blk["insts"][-1]["op"] != "ret" and not (x[0] == "i" and x[1].is_const() and i["id"] in s.relevant_ids(fn)):
                     vs = s.phivals.setdefault(vid, set())
                     vs.add(x)
@@ -757,6 +764,12 @@ class Engine:
                 ne = frozenset(l for k, (l, at) in enumerate(items[ng:]) if keep[ng + k])
                 cb = frozenset(kv for kv in facts.cb if atom_useful(kv[0]))
                 facts = Facts(ge, ne, cb)
+        if renames and getattr(s.plugin, "on_rename", None) is not None:
+            pl_ = st.pl
+            for (old_, new_) in renames:
+                pl_ = s.plugin.on_rename(pl_, old_, new_)
+            if pl_ is not st.pl:
+                st = State(st.env, st.facts, st.epoch, pl_)
         if seen_post is not None:
             kpost = (bb, frozenset(env.items()), facts, st.epoch, st.pl)
             if kpost in seen_post:
